@@ -50,12 +50,24 @@ L8(h) == \A i \in Idx(h, "CRead") : OfferOf(h, h[i].c).tls => h[i].tls
 \* L7: no goroutine stays behind
 L7(h) == \A i \in Idx(h, "Leak") : h[i].n <= 0
 
+\* one wrapper around several listeners (events then carry the listener's name in "ln"):
+\* L9: a connection comes out of the Accept of the listener it was accepted on
+Has(ev, f) == f \in DOMAIN ev
+L9(h) == \A i \in Idx(h, "Acc") : (Has(h[i], "ln") /\ Has(OfferOf(h, h[i].c), "ln")) => h[i].ln = OfferOf(h, h[i].c).ln
+\* L10: a connection offered on a listener that is open (and whose Accept is being called) is delivered ("Expect")
+L10(h) == \A i \in Idx(h, "Expect") : \E j \in Idx(h, "Acc") : h[j].c = h[i].c
+\* L11: a listener's Accept reports closure only after that listener was closed
+L11(h) == \A i \in Idx(h, "AccClosed") : Has(h[i], "ln") => \E j \in Idx(h, "LnClose") : j < i /\ Has(h[j], "ln") /\ h[j].ln = h[i].ln
+
 ListenerViolations(h, complete) ==
   (IF L1(h) THEN {} ELSE {"L1 a connection was delivered to Accept twice"})
   \cup (IF L2(h) THEN {} ELSE {"L2 a consumed or rejected connection was delivered to Accept"})
   \cup (IF L3(h) THEN {} ELSE {"L3 the consumer did not read the stream intact from the first unconsumed byte"})
   \cup (IF L4(h) THEN {} ELSE {"L4 a connection was closed by layer4 before being delivered"})
   \cup (IF L8(h) THEN {} ELSE {"L8 a TLS-terminated connection was delivered without its TLS connection state"})
+  \cup (IF L9(h) THEN {} ELSE {"L9 a connection came out of another listener's Accept than the one it was accepted on"})
+  \cup (IF ~complete \/ L10(h) THEN {} ELSE {"L10 a connection offered on an open listener was not delivered"})
+  \cup (IF L11(h) THEN {} ELSE {"L11 Accept of a listener reported closure although that listener was not closed"})
   \cup (IF ~complete \/ L5(h) THEN {} ELSE {"L5 Accept did not report closure after Close"})
   \cup (IF ~complete \/ L6(h) THEN {} ELSE {"L6 a connection was neither delivered nor closed (or a consumed/rejected one not closed)"})
   \cup (IF ~complete \/ L7(h) THEN {} ELSE {"L7 goroutines left behind after Close"})
